@@ -16,7 +16,7 @@ func init() {
 
 func runC08(c *Ctx) {
 	P := c.P
-	c.Explanation = "Decides the accounting clauses structurally: (R-EVICT-PAIR) in every Cache method each departure from the store (Store.Remove of a key found by Check, or Store.Evict) is paired in its block with exactly one eviction callback on that very (key, value), exactly one subtraction of sizeOf(that value) from the size accumulator and exactly one count−1, and none of the three occurs without a departure; an arrival (Store.Store) is paired with count+1 and a size that includes sizeOf(val). (R-LIMIT-LOOP) the only non-decreasing assignment of size stores a value proved ≤ limit by the exit edge of the eviction loop, whose initial value is size + sizeOf(val); a Put larger than the limit returns false before any effect. (R-CHECK-PURE) Has reaches only Store.Check, and lruStore.Check with its callees has an empty effect set — Has does not count as a use. (R-CLOCK) every lastAccess written is the clock value just ticked in the same block; the clock has no other writer. (R-USE-TICK) every successful Access and every Store ticks, stamps and re-inserts on all paths, so Put and successful Get always count as uses. (R-POS-WRITERS, shared with C06) the key→offset index is deleted only after the heap removal, so it stays in step with the heap. (R-CLEAR-ALL) every return of Clear lies behind a branch edge on which count <= 0 holds. Does NOT decide which entry is evicted (victim order needs a correct heap — C05, where F1 is listed — and a history argument) nor agreement with a reference LRU cache."
+	c.Explanation = "Decides the accounting clauses structurally: (R-EVICT-PAIR) in every Cache method each departure from the store (Store.Remove of a key found by Check, or Store.Evict) is paired in its block with exactly one eviction callback on that very (key, value), exactly one subtraction of sizeOf(that value) from the size accumulator and exactly one count−1, and none of the three occurs without a departure; an arrival (Store.Store) is paired with count+1 and a size that includes sizeOf(val). (R-LIMIT-LOOP) the only non-decreasing assignment of size stores a value proved ≤ limit by the exit edge of the eviction loop, whose initial value is size + sizeOf(val); a Put larger than the limit returns false before any effect. (R-CHECK-PURE) Has reaches only Store.Check, and lruStore.Check with its callees has an empty effect set — Has does not count as a use. (R-CLOCK) every lastAccess written is the clock value just ticked in the same block; the clock has no other writer. (R-USE-TICK) every successful Access and every Store ticks, stamps and re-inserts on all paths, so Put and successful Get always count as uses. (R-POS-WRITERS, shared with C06) the key→offset index is deleted only after the heap removal, so it stays in step with the heap. (R-CLEAR-ALL) every return of Clear lies behind a branch edge on which count <= 0 holds. (R-SIZEFN-FAITHFUL) the size function installed in the cache is the configured one, a closure returning exactly its result, or a constant default; an eviction helper that leaves the accounting to its callers is summarised and each call site held to it. Does NOT decide which entry is evicted (victim order needs a correct heap — C05, where F1 is listed — and a history argument) nor agreement with a reference LRU cache."
 	c.rule("R-EVICT-PAIR", 3, "each departure ↔ exactly one callback(k,v), one size −= sizeOf(v), one count−1 in its block; none of these without a departure; arrival ↔ count+1 and size including sizeOf(val)")
 	c.rule("R-LIMIT-LOOP", 2, "size only receives values ≤ limit (loop exit fact) or decreases by a sizeOf result; the too-big refusal precedes every effect of Put")
 	c.rule("R-CHECK-PURE", 2, "Cache.Has uses only Store.Check; lruStore.Check and its callees have no effects")
